@@ -7,11 +7,14 @@ TdmMetas == { Meta("tdm1", NoM, [name |-> "tdm", hasargs |-> TRUE, args |-> <<>>
               Meta("tdm0", [name |-> "TD2"] @@ NoArgs, [name |-> "tdm"] @@ NoArgs),
               Meta("ctrl", NoM, [name |-> "other"] @@ NoArgs) }
 PA(nm, ty, row) == [t |-> "arr", ty |-> ty, x |-> nm, shape |-> <<>>, rows |-> <<row>>]
+\* declared before every script: p-arrays with one- and several-digit indices, a scalar and an ordinary array
+TdmPre == << PA("p0", "float", <<F(1, 2), NegE(F(3, 2)), I(2)>>), PA("p1", "int", <<I(1), I(0)>>), PA("p2", "complex", <<Cpx(1, -2)>>),
+             PA("p10", "float", <<F(1, 4), F(3, 4)>>), PA("p123", "int", <<I(7)>>),
+             [t |-> "var", ty |-> "float", x |-> "v", e |-> F(3, 2)],
+             [t |-> "arr", ty |-> "float", x |-> "M", shape |-> <<>>, rows |-> << <<F(1, 2), I(2)>>, <<F(5, 2), NegE(I(1))>> >>] >>
 TdmItems == {
-  PA("p0", "float", <<F(1, 2), NegE(F(3, 2)), I(2)>>), PA("p1", "int", <<I(1), I(0)>>), PA("p2", "complex", <<Cpx(1, -2)>>),
-  PA("p10", "float", <<F(1, 4), F(3, 4)>>),
-  [t |-> "var", ty |-> "float", x |-> "v", e |-> F(3, 2)],
-  [t |-> "arr", ty |-> "float", x |-> "M", shape |-> <<>>, rows |-> << <<F(1, 2), I(2)>>, <<F(5, 2), NegE(I(1))>> >>],
+  PA("p7", "float", <<F(1, 8)>>),
+  Stmt("Xgate", TRUE, <<Var("p123"), Var("p7")>>, <<Kw("q", Var("p10"))>>, <<I(2)>>, "none"),
   Stmt("Sgate", TRUE, <<Var("p0"), F(1, 2)>>, <<>>, <<I(0)>>, "none"),
   Stmt("BSgate", TRUE, <<Var("p1")>>, <<Kw("phi", Var("p0"))>>, <<I(0), I(1)>>, "sq"),
   Stmt("Rgate", TRUE, <<Var("p2")>>, <<Kw("th", Var("p10")), Kw("w", Var("v"))>>, <<I(1)>>, "none"),
